@@ -405,6 +405,9 @@ struct CpcSk: Sk {
   void move_assign(Sk& o) override { *s = std::move(*static_cast<CpcSk&>(o).s); seed = static_cast<CpcSk&>(o).seed; }
   void feed(i64 start, i64 count, i64 pattern) override {
     for (i64 j = 0; j < count; j++) { i64 v = feed_value(start, j, count, pattern); if ((pattern >> 5) & 1) s->update(Item<std::string>::make(v)); else s->update(static_cast<int64_t>(v)); }
+    // some batches are topped up until the number of coupons sits exactly on a boundary of the compressor's phase / code-table selection (3k/4, k/2, 3k/32, k)
+    if ((pattern & 0x18) == 0x18) { const u64 k = 1ULL << s->get_lg_k(); static const u64 num[] = { 3, 1, 3, 1 }, den[] = { 4, 2, 32, 1 }; const size_t w = static_cast<size_t>(start) % 4; const u64 target = k * num[w] / den[w];
+      for (i64 x = start * 7919 + 1000000; s->get_num_coupons() < target && x < start * 7919 + 1000000 + 8 * static_cast<i64>(k); x++) s->update(static_cast<int64_t>(x)); }
   }
   template<typename O> void unite(O&& other, bool mv) {
     ds::cpc_union_alloc<A> un(s->get_lg_k(), seed, A(ARENA));
